@@ -12,8 +12,8 @@ import ast, itertools, json, math, os, re, sys, warnings
 import lib
 from lib import clist, cz, cbool, copt, cstr
 
-N_RANDOM = {"quick": 2600, "thorough": 30000}
-PER_FILE = 250
+N_RANDOM = {"quick": 2000, "thorough": 30000}
+PER_FILE = 900      # loading the standard library dominates a small case file: few, large files
 
 # ------------------------------------------------------------------------------------------------ environment
 INT_COLS, FLT_COLS, BOOL_COLS, STR_COLS = ["a", "b", "c"], ["x", "y"], ["p", "q"], ["s"]
@@ -265,6 +265,15 @@ def observe(text):
         lt = E["pbl"].parser.parse(text)
         o["tree"] = tree_of_lark(lt)
         o["infrag"] = in_fragment(o["tree"])
+        # the parser's lexer is contextual: where only a NAME can follow, a keyword text is lexed as a NAME
+        # ('and' alone is the column called and).  The model gets the tokens the parser really consumed.
+        try:
+            ctoks = [model_tok(t) for t in E["pbl"].parser.parse_interactive(text).iter_parse()]
+            if ctoks != o["toks"]:
+                o["toks"] = ctoks
+                o["contextual"] = True
+        except Exception:
+            pass
     except Exception as e:
         o["tree"] = None
         o["infrag"] = True
@@ -345,6 +354,16 @@ def calls_a_non_name(t):
     return any(calls_a_non_name(c) for c in t[2])
 
 
+def calls_a_dunder(t):
+    """expr.__name__(...) written in the text: the dunder methods of Term build operator expressions directly,
+    also ones the grammar walker refuses (& | ^) or with the operands the other way round"""
+    if t[0] != "node":
+        return False
+    if t[1] == "getattr" and len(t[2]) == 2 and t[2][1][0] == "tok" and t[2][1][1][0] == "name" and t[2][1][1][1].startswith("__"):
+        return True
+    return any(calls_a_dunder(c) for c in t[2])
+
+
 def roundtrip_signature(o):
     """narrow description of a round-trip failure, matched against known_findings.d/C13.json"""
     sig = {"oracle": "roundtrip", "cause": "other"}
@@ -355,8 +374,9 @@ def roundtrip_signature(o):
     inf = contains_value(p, lambda v: v[0] == "inf")
     short = contains_short_list(p)
     odd_call = o.get("tree") is not None and calls_a_non_name(o["tree"])
+    dunder = o.get("tree") is not None and calls_a_dunder(o["tree"])
     causes = [c for c, f in (("negative_zero_constant", negzero), ("infinite_constant", inf), ("list_of_at_most_one_element", short),
-                             ("call_of_a_non_name", odd_call)) if f]
+                             ("call_of_a_non_name", odd_call), ("dunder_method_call", dunder)) if f]
     if len(causes) == 1:
         sig["cause"] = causes[0]
     elif causes:
@@ -987,13 +1007,14 @@ a + b)
 a , b
 """.strip().split("\n")
 
-WITNESS_TEXTS = ["a < b < c", "a == b == c", "(-0.0) ** 2", "1e400 + a", "a.is_in([-1,])", "a.is_in([True])"]
+WITNESS_TEXTS = ["a < b < c", "a == b == c", "(-0.0) ** 2", "1e400 + a", "a.is_in([-1,])", "a.is_in([True])", "(+p)(a, c)",
+                 "a.__and__(b)", "a.__rsub__([1, 2])"]
 
 
 def exhaustive_texts():
     """ALL token sequences up to a length bound over small alphabets (thorough tier)"""
-    specs = [(["a", "-", "**", "(", ")"], 7), (["a", "2", "+", "*", "-", "(", ")"], 5), (["p", "a", "<", "and", "or", "not"], 5),
-             (["a", "1", ".abs()", "-", "**", "(", ")", ","], 4)]
+    specs = [(["a", "-", "**"], 7), (["a", "-", "**", "(", ")"], 6), (["a", "2", "+", "*", "-", "(", ")"], 5),
+             (["p", "a", "<", "and", "or", "not"], 5), (["a", "1", ".abs()", "-", "**", "(", ")", ","], 4)]
     seen = set()
     for alpha, n in specs:
         for k in range(1, n + 1):
@@ -1112,7 +1133,8 @@ def run(chk):
     chk.prove([], extra_vo=["theories/Model/ExprParseCases.vo"])
     chk.cov["trusted_base"] = [
         "Coq 8.16.1 kernel + vm_compute",
-        "hand models Model/PyExpr.v, ExprParse.v, ExprSem.v, ExprPrint.v of expr_rep.py / parse_by_lark.py / the scalar entries of pandas_base.impl_map (sampled by correspondence on every run)",
+        "hand models Model/PyExpr.v, ExprParse.v, ExprSem.v, ExprPrint.v of expr_rep.py / parse_by_lark.py / the scalar entries of pandas_base.impl_map (sampled by correspondence on every run); Model/ExprAst.v and ExprRoundtrip.v only supply the vocabulary of the theorems (ASTs with parentheses, printable, the guards)",
+        "the lexer: tokens are the ones the library's own lark lexer delivers (for accepted texts the contextual tokens the parser consumed); the Coq development starts from token lists",
         "lark's LALR parser and lexer for python3_lark.py are NOT modelled: Model/ExprParse.lark_of is a different (total, structurally recursive) parser for the accepted fragment whose agreement with lark is checked tree-for-tree on every generated text",
         "token values: int() / float() / ast.literal_eval() of literal tokens and repr() of constants are Python's (a literal token reaches Coq as its value; repr(v) is trusted to lex back to one literal token of the same value)",
         "CPython's own parser and evaluator as the meaning of a text (oracle), harness/props/C13.py ref_eval as the executable statement of the common domain (cross-checked against eval() on every call-free text)",
@@ -1123,10 +1145,12 @@ def run(chk):
         "float arithmetic is exact rational arithmetic in the model; values observed from the implementation are compared with the 1e-8 relative rule",
         "texts whose lark tree uses a shape outside the modelled fragment (conditional expressions, lambda, subscripts, keyword/star arguments, comprehensions, in/is comparisons, adjacent strings, await, ellipsis) are outside the model; the walker rejects all of them",
         "Term attributes that are not expression builders (is_equal, to_python, to_source, act_on, get_*_names, object housekeeping dunders) are outside the model's method table",
+        "round trip theorem: for texts of well-formed source ASTs (Model/ExprAst.wfn: the modelled fragment in every parenthesisation) under the guards src_ok / expr_kf_ok, each guard being a listed known finding (dunder method calls written in the text, callees that are not names, infinite constants, lists of fewer than two items, -0.0 as the base of **)",
+        "if_else is compared only on conditions that depend on a column (the library's if_else does not accept a constant condition: outside 'operators defined identically')",
     ]
     chk.cov["rule"] = ("random expression texts from a grammar over names (int/float/bool/str columns), int and float literals incl. negative and exponent forms, strings, "
                        "+ - * / // % ** unary -/+, comparisons and chains, and/or/not, necessary and redundant parentheses, method and function calls, list/tuple/set/dict arguments, "
-                       "plus error paths and shapes outside the fragment (~10%); a fixed list of 190 regression texts; thorough: ALL token sequences up to 7 tokens over {a,-,**,(,)}, "
+                       "plus error paths and shapes outside the fragment (~10%); a fixed list of 190 regression texts; thorough: ALL token sequences up to 7 tokens over {a,-,**}, up to 6 over {a,-,**,(,)}, "
                        "up to 5 over {a,2,+,*,-,(,)} and {p,a,<,and,or,not}, up to 4 over {a,1,.abs(),-,**,(,),,}; non-trivial = the text has at least 3 tokens; distinct by text")
     phase["prove"] = round(time.time() - t0, 1)
     t0 = time.time()
@@ -1159,7 +1183,7 @@ def run(chk):
     if tier == "thorough":
         for t in exhaustive_texts():
             add(t, "exhaustive")
-        chk.cov["exhaustive_small_scope"] = "all token sequences: <=7 over {a - ** ( )}, <=5 over {a 2 + * - ( )} and {p a < and or not}, <=4 over {a 1 .abs() - ** ( ) ,}"
+        chk.cov["exhaustive_small_scope"] = "all token sequences: <=7 over {a - **}, <=6 over {a - ** ( )}, <=5 over {a 2 + * - ( )} and {p a < and or not}, <=4 over {a 1 .abs() - ** ( ) ,}"
 
     # ---- observe, run the oracles
     obs_list = []
@@ -1176,6 +1200,8 @@ def run(chk):
         chk.count(text, nontrivial=ntok >= 3)
         chk.dist("tokens_%02d" % min(ntok // 3 * 3, 30))
         seen_names |= names_in_tokens(o["toks"])
+        if o.get("contextual"):
+            chk.dist("keyword_lexed_as_name")
         if o.get("tree") is None:
             chk.dist("lark_rejects")
         elif not o["infrag"]:
@@ -1228,6 +1254,7 @@ def run(chk):
     # ---- correspondence
     if not os.path.exists(os.path.join(lib.COQ, "theories/Model/ExprParseCases.vo")):
         chk.corr_break("Model/ExprParseCases.vo not built", "")
+        search_after_break(chk, rng, rows)
         return
     mcases, mmeta, modelled = method_probes(rng, chk)
     reject_chains = False
@@ -1263,7 +1290,7 @@ def run(chk):
         if parsed is not None and len(exprs_seen) < 400:
             exprs_seen.append((parsed, o["term"]))
         # values: py_meaning vs CPython, eval vs the library, on up to two rows per text
-        if tree is not None and o["infrag"] and o.get("pyv") is not None and (tier == "thorough" or n_value < 1500):
+        if tree is not None and o["infrag"] and o.get("pyv") is not None and (tier == "thorough" or n_value < 700):
             try:
                 ptree = ast.parse(o["text"].strip(), mode="eval")
                 calls = {n.func.attr if isinstance(n.func, ast.Attribute) else getattr(n.func, "id", "?") for n in ast.walk(ptree) if isinstance(n, ast.Call)}
@@ -1283,7 +1310,7 @@ def run(chk):
                     k += 1
                     n_value += 1
     # is_equal on pairs of parsed trees
-    for i in range(min(len(exprs_seen), 250 if tier == "quick" else 400)):
+    for i in range(min(len(exprs_seen), 150 if tier == "quick" else 400)):
         a, ta = exprs_seen[i]
         b, tb = exprs_seen[rng.randrange(len(exprs_seen))] if rng.random() < 0.6 else exprs_seen[i]
         try:
@@ -1311,7 +1338,7 @@ def run(chk):
         chk.corr_break("correspondence case files failed to compile", errors[0])
     for i in failing[:4]:
         chk.corr_break("Model/ExprParse.v (or ExprPrint / ExprSem / PyExpr) disagrees with the implementation: " + meta[i]["kind"] + " " + str(meta[i].get("text", meta[i].get("method", ""))), meta[i])
-    if failing or errors:
+    if failing or errors or not getattr(chk, "proof_ok", True):
         search_after_break(chk, rng, rows)
 
 
